@@ -40,8 +40,18 @@ USERS = {
     'root': ('rootpass', ('admin',)),
     'carol': ('carolpass', ('sudo',)),
     'dis': (None, ()),            # no / disabled password
+    # look-alike accounts: distinct users whose names are equal under case
+    # folding / Unicode compatibility normalisation (saslprep maps U+FF42 to b)
+    'Bob': ('Bobpass', ()),
+    '\uff42ob': ('fwpass', ()),
+    'ROOT': ('ROOTpass', ()),
 }
-MARK = 'mark-%s'
+UIDX = {name: i for i, name in enumerate(USERS)}
+UNAME = {i: name for name, i in UIDX.items()}
+
+
+def mark_of(name: str) -> str:
+    return 'mark-%d' % UIDX[name]
 
 
 # ------------------------------------------------------------- environments
@@ -80,7 +90,7 @@ class Env:
             login.users_dict[name] = UserMetadata(env.config, name, password=hashed,
                                                   roles=frozenset(roles))
             self.stored[name] = hashed
-            await populate_user(env, name, {'INBOX': (0, False), MARK % name: (0, False)})
+            await populate_user(env, name, {'INBOX': (0, False), mark_of(name): (0, False)})
         self.config = env.config
         self.login = login
 
@@ -102,8 +112,10 @@ class Env:
         for name, (pw, _roles) in USERS.items():
             if pw is None:
                 continue
-            conn = await env.login(name.encode(), pw.encode())
-            r = await conn.send(b'm1 CREATE ' + (MARK % name).encode() + b'\r\n')
+            conn = await env.connect()
+            r = await conn.send(b'm0 LOGIN ' + quote(name.encode()) + b' ' + quote(pw.encode()) + b'\r\n')
+            assert b'm0 OK' in r, r
+            r = await conn.send(b'm1 CREATE ' + mark_of(name).encode() + b'\r\n')
             assert b'm1 OK' in r, r
             await conn.send_eof()
 
@@ -189,12 +201,40 @@ def quote(b: bytes) -> bytes:
     return b'"' + b.replace(b'\\', b'\\\\').replace(b'"', b'\\"') + b'"'
 
 
+def variant(rng, name: bytes) -> bytes:
+    """a case / normalisation / spacing variant of a name"""
+    try:
+        t = name.decode('utf-8')
+    except UnicodeDecodeError:
+        return name
+    k = rng.randrange(8)
+    if k == 0:
+        t = t.upper()
+    elif k == 1:
+        t = t.lower()
+    elif k == 2:
+        t = t.capitalize()
+    elif k == 3:
+        t = t.swapcase()
+    elif k == 4:
+        t = t + ' '
+    elif k == 5:
+        t = ''.join(chr(ord(c) + 0xfee0) if c == 'b' else c for c in t)   # fullwidth b
+    elif k == 6:
+        t = t.replace('\uff42', 'b')
+    else:
+        t = t.replace('o', '\u00f6') if rng.random() < 0.5 else t.title()
+    return t.encode('utf-8')
+
+
 def gen_user(rng) -> bytes:
     r = rng.random()
-    if r < 0.7:
+    if r < 0.62:
         return rng.choice(list(USERS)).encode()
+    if r < 0.72:
+        return variant(rng, rng.choice(list(USERS)).encode())
     if r < 0.8:
-        return rng.choice([b'nobody', b'', b'Bob', b'BOB', b'testuser ', b'roo', b'root2', b'admin'])
+        return rng.choice([b'nobody', b'', b'BOB', b'testuser ', b'roo', b'root2', b'admin'])
     if r < 0.9:
         return rng.choice([b'b\xc3\xb6b', b'bob\x01', b'\xe2\x80\x8bbob', b'bob\xc2\xa0'])
     return bytes(rng.choice(b'abor tz') for _ in range(rng.randint(1, 6)))
@@ -204,6 +244,11 @@ def gen_secret(rng, user: bytes) -> bytes:
     r = rng.random()
     name = user.decode('utf-8', 'replace')
     pw = USERS.get(name, (None, ()))[0]
+    if pw is None and rng.random() < 0.5:
+        # the password of a look-alike account
+        for n2, (p2, _r) in USERS.items():
+            if p2 and n2.casefold() == name.strip().casefold():
+                pw = p2
     if r < 0.45 and pw is not None:
         return pw.encode()
     if r < 0.6:
@@ -247,10 +292,14 @@ def gen_attempt(rng, tls_env: bool) -> Attempt:
             authz = b''
         elif z < 0.6:
             authz = user
-        elif z < 0.92:
+        elif z < 0.78:
             authz = rng.choice(list(USERS)).encode()
+        elif z < 0.86:
+            authz = variant(rng, user)            # look-alike of the authcid
+        elif z < 0.94:
+            authz = variant(rng, rng.choice(list(USERS)).encode())
         else:
-            authz = rng.choice([b'nobody', b'Bob', b'\xff'])
+            authz = rng.choice([b'nobody', b'BOB', b'\xff'])
         mech = rng.choice([b'PLAIN', b'PLAIN', b'plain', b'Plain'])
         m = rng.random()
         if m < 0.72:
@@ -345,7 +394,7 @@ def ib(b) -> str:
 
 
 # ----------------------------------------------------------- IMAP sequences
-_MARK_RE = re.compile(rb'\* LIST \([^)]*\) "[^"]*" "?mark-([A-Za-z0-9]+)"?\r\n')
+_MARK_RE = re.compile(rb'\* LIST \([^)]*\) "[^"]*" "?mark-([0-9]+)"?\r\n')
 
 
 async def run_imap_sequence(rec: Recorder, E: Env, attempts: list[Attempt]) -> dict:
@@ -369,7 +418,7 @@ async def run_imap_sequence(rec: Recorder, E: Env, attempts: list[Attempt]) -> d
         snap = rec.snapshot()
         if a.kind == 'probe' and cond == 'OK':
             marks = _MARK_RE.findall(out)
-            who = marks[0].decode() if len(marks) == 1 else 'MARKERS:%r' % marks
+            who = UNAME.get(int(marks[0]), '?') if len(marks) == 1 else 'MARKERS:%r' % marks
         elif a.kind == 'probe' and cond == 'BAD':
             who = None
         stage = None
@@ -569,7 +618,8 @@ def gen_sattempt(rng) -> SAttempt:
         secret = secret[:500]
     if r < 0.5:
         z = rng.random()
-        authz = b'' if z < 0.5 else (user if z < 0.6 else rng.choice(list(USERS)).encode())
+        authz = b'' if z < 0.4 else (user if z < 0.5 else (
+            rng.choice(list(USERS)).encode() if z < 0.75 else variant(rng, user)))
         payload = authz + b'\0' + user + b'\0' + secret
         creds = (user, secret, authz or user)
         if not user or b'\0' in user + secret + authz:
@@ -646,9 +696,16 @@ def _sieve_done(out: bytes) -> str | None:
 
 
 def _sieve_caps(out: bytes) -> dict:
-    owner = re.search(rb'"OWNER" "([^"]*)"', out)
+    owner = re.search(rb'"OWNER" (?:"([^"]*)"|\{(\d+)\+?\}\r\n)', out)
+    oname = None
+    if owner:
+        if owner.group(1) is not None:
+            oname = owner.group(1).decode('utf-8', 'replace')
+        else:
+            n = int(owner.group(2))
+            oname = out[owner.end():owner.end() + n].decode('utf-8', 'replace')
     sasl = re.search(rb'"SASL" "([^"]*)"', out)
-    return {'owner': owner.group(1).decode() if owner else None,
+    return {'owner': oname,
             'mechs': bool(sasl and sasl.group(1)),
             'offer_tls': b'"STARTTLS"' in out}
 
@@ -780,6 +837,7 @@ def fixed_sequences() -> list[tuple[str, list[Attempt]]]:
     """Hand-picked sequences that every run contains (the clauses of the
     statement, one by one)."""
     P = b'AUTHENTICATE PLAIN'
+    FW = '\uff42ob'.encode('utf-8')
 
     def plain(z, c, s):
         creds = (c, s, z or c)
@@ -805,6 +863,15 @@ def fixed_sequences() -> list[tuple[str, list[Attempt]]]:
                        plain(b'', b'root', b'rootpass'), login(b'root', b'rootpass')]),
             (envname, [Attempt('sasl_login', b'AUTHENTICATE LOGIN', [b64(b'bob'), b64(b'bobpass')],
                                (b'bob', b'bobpass', b'bob'), 'SASL-LOGIN')]),
+            # look-alike accounts: bob / Bob / fullwidth-b ob, root / ROOT
+            (envname, [plain(b'Bob', b'bob', b'bobpass')]),
+            (envname, [plain(b'bob', b'Bob', b'Bobpass')]),
+            (envname, [plain(FW, b'bob', b'bobpass'), plain(b'bob', FW, b'fwpass')]),
+            (envname, [plain(b'BOB', b'bob', b'bobpass'), plain(b'root', b'ROOT', b'ROOTpass')]),
+            (envname, [plain(b'bob', b'ROOT', b'ROOTpass')]),
+            (envname, [login(b'Bob', b'bobpass'), login(b'bob', b'Bobpass'), login(FW, b'bobpass'),
+                       login(b'Bob', b'Bobpass')]),
+            (envname, [plain(b'', FW, b'fwpass')]),
             (envname, [Attempt('sasl_login', b'AUTHENTICATE LOGIN', [b64(b'bob'), b'*']),
                        Attempt('sasl_login', b'AUTHENTICATE LOGIN', [b'*', b'x']),
                        Attempt('sasl_login', b'AUTHENTICATE LOGIN', [b64(b'bob'), b64(b'nope')],
